@@ -3,6 +3,7 @@
 -/
 import Emu.Proofs.Drop
 import Emu.Bt.Server
+import Emu.Bt.Activity
 
 namespace Emu.Props.C14
 open Emu Emu.Bt Emu.Proofs.BtRow Emu.Proofs.BtInv Emu.Proofs.BtRows Emu.Proofs.Drop
@@ -41,6 +42,40 @@ theorem delete_frame (s : Server) (name other : Bytes) (h : other ≠ name) :
   cases s.find name with
   | none => rfl
   | some t => simp [Server.find, aget_adel_other _ _ _ h]
+
+/-- "NotFound for every later request" includes the two consistency requests: a token handed out
+    while the table existed proves nothing once it is gone (and none is handed out for a missing table);
+    for an existing table exactly its own token is accepted. -/
+theorem consistency_requests_need_the_table (y : Sys) (name token : Bytes) :
+    (y.srv.find name = none →
+      (xstep y (.genToken name)).2 = .err .notFound ∧ (xstep y (.checkToken name token)).2 = .err .notFound) ∧
+    ((y.srv.find name).isSome →
+      (xstep y (.genToken name)).2 = .ok ∧
+      ((xstep y (.checkToken name token)).2 = .ok ↔ token = consistencyToken name)) ∧
+    (xstep y (.genToken name)).1.srv = y.srv ∧ (xstep y (.checkToken name token)).1.srv = y.srv := by
+  refine ⟨fun h => by simp [xstep, h], fun h => ?_, ?_, ?_⟩
+  · cases hf : y.srv.find name with
+    | none => simp [hf] at h
+    | some t =>
+      refine ⟨by simp [xstep, hf], ?_⟩
+      simp only [xstep, hf]
+      by_cases ht : token = consistencyToken name <;> simp [ht]
+  · simp only [xstep]; split <;> rfl
+  · simp only [xstep]; split
+    · rfl
+    · split <;> rfl
+
+/-- in particular after a DeleteTable -/
+theorem deleted_table_token_is_worthless (y : Sys) (name : Bytes) :
+    let y' : Sys := { y with srv := (step y.srv (.delete name)).1 }
+    (xstep y' (.checkToken name (consistencyToken name))).2 = .err .notFound := by
+  intro y'
+  have : y'.srv.find name = none := by
+    show (step y.srv (.delete name)).1.find name = none
+    cases hf : y.srv.find name with
+    | none => simp [step, Server.withTable, hf]
+    | some t => exact (delete_then_notFound y.srv name t hf).2
+  simp [xstep, this]
 
 /-! #### column families -/
 
